@@ -392,6 +392,17 @@ def _supports_fileno(file: Any) -> bool:
     return True
 
 
+def _write_array_to_file(array: np.ndarray, file: Any) -> None:
+    """Write the bytes of the array through the file object.
+
+    ``np.ndarray.tofile`` writes through a duplicated C stream and ignores the error
+    of that stream's final flush, so a failed write (disk full, file size limit) can go
+    unnoticed and leave a truncated file behind. Writing through the file object keeps
+    such errors visible. The buffer of a contiguous array is handed over without a copy.
+    """
+    file.write(np.ascontiguousarray(array).reshape(-1).view(np.uint8).data)
+
+
 def _is_regular_file(file: Any) -> bool:
     """Return whether a file-like object is backed by a regular file."""
     if not _supports_fileno(file):
@@ -608,7 +619,7 @@ class Tensor(TensorBase, _protocols.TensorProtocol, Generic[TArrayCompatible]): 
         if isinstance(self._raw, np.ndarray) and _supports_fileno(file):
             # This is a duplication of tobytes() for handling special cases
             array = _create_np_array_for_byte_representation(self)
-            array.tofile(file)
+            _write_array_to_file(array, file)
         else:
             file.write(self.tobytes())
 
@@ -1385,7 +1396,7 @@ class PackedTensor(TensorBase, _protocols.TensorProtocol, Generic[TArrayCompatib
             array = self.numpy_packed()
             if not _IS_LITTLE_ENDIAN:
                 array = array.astype(array.dtype.newbyteorder("<"))
-            array.tofile(file)
+            _write_array_to_file(array, file)
         else:
             file.write(self.tobytes())
 
